@@ -27,7 +27,7 @@ Proof. exact all_output_tokens. Qed.
 Print Assumptions C06_all_framing.
 
 (* ---- the round trip itself, with json.loads modelled in Coq (Model/JsonLoads.v: CPython's scanner, OrderedDict pairs) ----
-   wf_json j: no float in j, strings are sequences of Unicode scalar values, keys of one object pairwise distinct, integer
+   wf_json j: no float in j, strings are any Python str that json round-trips (code points below 0x110000, no high surrogate directly followed by a low one; lone surrogates are fine), keys of one object pairwise distinct, integer
    literals within int()'s digit limit (4300), nesting at most depth_limit (200).  The documents the decoder produces meet this
    (their strings come from decoded text, keys are distinct by construction - C01_distinct_keys -, depth <= 6).  *)
 
@@ -51,6 +51,12 @@ Print Assumptions C06_all_roundtrip.
 Theorem C06_loads_tokens : forall s j, tokens s = Some (toks j) -> wf_json j -> loads s = LOk j.
 Proof. exact loads_of_tokens. Qed.
 Print Assumptions C06_loads_tokens.
+
+(* the hypothesis is decidable; the extracted binary evaluates wf_jsonb on every document the decode model produces in the runs
+   (evidence: doc-wf) *)
+Theorem C06_wf_decidable : forall j, wf_jsonb j = true -> wf_json j.
+Proof. exact wf_jsonb_sound. Qed.
+Print Assumptions C06_wf_decidable.
 
 Example C06_roundtrip_example :
   let j := JObj [(L "k""ey\: ", JArr [JNum (-5); JStr [34; 58; 233; 128512]; JObj []]); (L "", JNull)] in
